@@ -163,6 +163,8 @@ def check_C11(tier, seed):
     def search():
         r2 = Result("C11", tier, seed)
         slice_hash.run_slice(r2, rng_for(seed, "C11/search"), "thorough", 200)
+        if not r2.oracle_failures:
+            slice_hash.huge_keys(r2)
         res.notes.append(f"search ran {r2.evaluations} extra keys")
         return r2.oracle_failures
 
@@ -667,7 +669,11 @@ def _hll_envelope(res, rng, tier):
                 base = rng.randrange(2**40)
                 klen = rng.choice([4, 8, 13])
                 h.update([(base + i).to_bytes(8, "little")[:klen] + b"\x01" * (klen - min(klen, 8)) if klen <= 8 else (base + i).to_bytes(8, "little") + b"pad!!" for i in range(n)])
-                est = float(h.query())
+                try:
+                    est = float(h.query())
+                except Exception as e:
+                    res.oracle_failures.append({"pid": "C07", "what": f"C07 p={p} seed={seed} n={n}: query() raised {type(e).__name__}: {e}", "p": p, "n": n, "seed": seed})
+                    continue
                 rel = abs(est - n) / n
                 k = 7.0
                 bound = k * 1.04 / math.sqrt(m)
